@@ -337,7 +337,8 @@ def b_len(ip, v):
     if prims.is_strv(v):
         return prims.mk_int(ip, z3.Length(v.t))
     if type(v).__name__ == "SplitV":
-        return prims.mk_int(ip, c.heap.get("llen")[v.as_list(ip)])
+        lst = v.as_list(ip)        # (allocates: must happen before the length array is read)
+        return prims.mk_int(ip, c.heap.get("llen")[lst])
     if isinstance(v, Sym) and v.t.sort() == Val:
         raise Unsupported("len() of untyped symbolic value")
     ip.py_raise(TypeError, f"object of type '{type(v).__name__}' has no len()")
